@@ -317,6 +317,21 @@ def r9_bound_constructor_brings_its_matchers(ctx):
     ctx.ob('C02.R9', 'derived-components-registered', ok, b.loc(der[0][0]) if der else b.loc(), how)
 
 
+def r10_fallback_tree(ctx):
+    ctx.rule('C02.R10', 'shared with C07.R3: nested fallbacks form a tree (the children of a scope hang under the node created for that scope). With a '
+             'flat tree the scope-based fallback of a route becomes the outermost one; PathRouter::assign_fallbacks then sees it disagree with the '
+             'path-based fallback and REJECTS a blueprint that nests `fallback` inside `fallback` under a prefix — a rule-abiding application.')
+    from .c07 import r3_fallback_tree
+    from ..engine import Ctx
+    side = Ctx(ctx.prop, ctx.fb, ctx.tier)
+    r3_fallback_tree(side)
+    n = 0
+    for ob in side.obs:
+        n += 1
+        ctx.ob('C02.R10', ob.key, ob.ok, ob.loc, ob.detail, ob.nontrivial)
+    ctx.floor('C02.R10', 'fallback-tree obligations', n, 1)
+
+
 def check(ctx):
     r1_exemptions_first(ctx)
     r2_control_flow_test(ctx)
@@ -327,3 +342,4 @@ def check(ctx):
     r7_types_keyed_by_identity(ctx)
     r8_exemptions_at_every_level(ctx)
     r9_bound_constructor_brings_its_matchers(ctx)
+    r10_fallback_tree(ctx)
